@@ -11,14 +11,22 @@ structure Ty where
   vdims : Option (List String)
   vmap : VMap
   unit : Option String
+  kind : Kind
 
-def tyOf (f : CF) : Ty := ⟨f.nvdim, f.vdims, f.vmap, f.unit⟩
+def tyOf (f : CF) : Ty := ⟨f.nvdim, f.vdims, f.vmap, f.unit, f.kind⟩
 
-def Ty.noUnit (t : Ty) : Ty := { t with unit := none }
+/-- result of an operation that rebuilds the field without unit, with dtype kind `k` -/
+def Ty.res (t : Ty) (k : Kind) : Ty := { t with unit := none, kind := k }
 
 /-- `f` is `Good` and has the statically predicted metadata -/
 def HasMeta (M : Mesh) (g : CF) (t : Ty) : Prop :=
-  Good M g ∧ g.nvdim = t.nv ∧ g.vdims = t.vdims ∧ g.vmap = t.vmap ∧ g.unit = t.unit
+  Good M g ∧ g.nvdim = t.nv ∧ g.vdims = t.vdims ∧ g.vmap = t.vmap ∧ g.unit = t.unit ∧ g.kind = t.kind
+
+namespace Kind
+theorem join_comm (a b : Kind) : a.join b = b.join a := by cases a <;> cases b <;> rfl
+theorem ctor_ctor (a : Kind) : a.ctor.ctor = a.ctor := by cases a <;> rfl
+theorem join_ctor_left (a b : Kind) : (a.ctor.join b).ctor = (a.join b).ctor := by cases a <;> cases b <;> rfl
+end Kind
 
 def isArith : BinOp → Bool
   | .add | .sub | .mul | .div => true
@@ -32,6 +40,18 @@ def isUArith : BinOp → Bool
 def unKeepsUnit : UnOp → Bool
   | .pos | .abs | .real | .imag | .conj => true
   | _ => false
+
+/-- dtype kind of the result of a unary operation (`+f` is `f` itself; everything else goes
+through the constructor, which stores at least float64) -/
+def unKind : UnOp → Kind → Kind
+  | .pos, k => k
+  | .abs, k | .real, k | .imag, k | .absP, k | .uabsolute, k => k.realOf.ctor
+  | .phase, _ => .float
+  | _, k => k.ctor
+
+/-- static result of a unary operation -/
+def unTy (u : UnOp) (t : Ty) : Ty :=
+  { t with unit := if unKeepsUnit u then t.unit else none, kind := unKind u t.kind }
 
 /-- a number exponent NumPy accepts for every base dtype -/
 def PowOk : Opd → Prop
@@ -60,49 +80,22 @@ theorem negIntPow_powOk (pw : Bool) (kb : Kind) (od : Opd) (h : PowOk od) :
 
 theorem applyUn_accepts (env : Env) (u : UnOp) (M : Mesh) (hM : MeshOk M) (f : CF) (hf : Good M f) :
     ∃ g, applyUn env u f = .ok g ∧ Good M g ∧ g.nvdim = f.nvdim ∧ g.vdims = f.vdims ∧ g.vmap = f.vmap ∧
-      g.unit = (if unKeepsUnit u then f.unit else none) := by
+      g.unit = (if unKeepsUnit u then f.unit else none) ∧ g.kind = unKind u f.kind := by
   cases u
-  case pos => exact ⟨f, rfl, hf, rfl, rfl, rfl, rfl⟩
-  case neg =>
-    obtain ⟨g, h, hg, h1, h2, h3, h4, _⟩ := mapField_accepts GQ.neg id false M f hf
-    exact ⟨g, h, hg, h1, h2, h3, h4⟩
-  case abs =>
-    obtain ⟨g, h, hg, h1, h2, h3, h4, _⟩ := mapField_accepts (GQ.abs env.sq) Kind.realOf true M f hf
-    exact ⟨g, h, hg, h1, h2, h3, h4⟩
-  case real =>
-    obtain ⟨g, h, hg, h1, h2, h3, h4, _⟩ := mapField_accepts GQ.realPart Kind.realOf true M f hf
-    exact ⟨g, h, hg, h1, h2, h3, h4⟩
-  case imag =>
-    obtain ⟨g, h, hg, h1, h2, h3, h4, _⟩ := mapField_accepts GQ.imagPart Kind.realOf true M f hf
-    exact ⟨g, h, hg, h1, h2, h3, h4⟩
-  case conj =>
-    obtain ⟨g, h, hg, h1, h2, h3, h4, _⟩ := mapField_accepts GQ.conj id true M f hf
-    exact ⟨g, h, hg, h1, h2, h3, h4⟩
-  case absP =>
-    obtain ⟨g, h, hg, h1, h2, h3, h4, _⟩ := mapField_accepts (GQ.abs env.sq) Kind.realOf false M f hf
-    exact ⟨g, h, hg, h1, h2, h3, h4⟩
-  case phase =>
-    obtain ⟨g, h, hg, h1, h2, h3, h4, _⟩ :=
-      mapField_accepts (fun z => ⟨env.arg z, 0⟩) (fun _ => .float) false M f hf
-    exact ⟨g, h, hg, h1, h2, h3, h4⟩
-  case unegative =>
-    obtain ⟨g, h, hg, h1, h2, h3, h4, _⟩ := ufunc1_accepts GQ.neg id M hM f hf
-    exact ⟨g, h, hg, h1, h2, h3, h4⟩
-  case upositive =>
-    obtain ⟨g, h, hg, h1, h2, h3, h4, _⟩ := ufunc1_accepts id id M hM f hf
-    exact ⟨g, h, hg, h1, h2, h3, h4⟩
-  case uabsolute =>
-    obtain ⟨g, h, hg, h1, h2, h3, h4, _⟩ := ufunc1_accepts (GQ.abs env.sq) Kind.realOf M hM f hf
-    exact ⟨g, h, hg, h1, h2, h3, h4⟩
-  case usquare =>
-    obtain ⟨g, h, hg, h1, h2, h3, h4, _⟩ := ufunc1_accepts (fun z => GQ.mul z z) id M hM f hf
-    exact ⟨g, h, hg, h1, h2, h3, h4⟩
-  case uconjugate =>
-    obtain ⟨g, h, hg, h1, h2, h3, h4, _⟩ := ufunc1_accepts GQ.conj id M hM f hf
-    exact ⟨g, h, hg, h1, h2, h3, h4⟩
-  case usign =>
-    obtain ⟨g, h, hg, h1, h2, h3, h4, _⟩ := ufunc1_accepts (GQ.sign env.sq) id M hM f hf
-    exact ⟨g, h, hg, h1, h2, h3, h4⟩
+  case pos => exact ⟨f, rfl, hf, rfl, rfl, rfl, rfl, rfl⟩
+  case neg => exact mapField_accepts GQ.neg id false M f hf
+  case abs => exact mapField_accepts (GQ.abs env.sq) Kind.realOf true M f hf
+  case real => exact mapField_accepts GQ.realPart Kind.realOf true M f hf
+  case imag => exact mapField_accepts GQ.imagPart Kind.realOf true M f hf
+  case conj => exact mapField_accepts GQ.conj id true M f hf
+  case absP => exact mapField_accepts (GQ.abs env.sq) Kind.realOf false M f hf
+  case phase => exact mapField_accepts (fun z => ⟨env.arg z, 0⟩) (fun _ => .float) false M f hf
+  case unegative => exact ufunc1_accepts GQ.neg id M hM f hf
+  case upositive => exact ufunc1_accepts id id M hM f hf
+  case uabsolute => exact ufunc1_accepts (GQ.abs env.sq) Kind.realOf M hM f hf
+  case usquare => exact ufunc1_accepts (fun z => GQ.mul z z) id M hM f hf
+  case uconjugate => exact ufunc1_accepts GQ.conj id M hM f hf
+  case usign => exact ufunc1_accepts (GQ.sign env.sq) id M hM f hf
 
 /-! ## binary steps on evaluated operands -/
 
@@ -114,11 +107,12 @@ theorem rawFits_of_meta (f g : CF) (od : Opd) (h : RawFits f.mesh.n f.nvdim od) 
 theorem applyBin_arith_ff (env : Env) (b : BinOp) (hb : isArith b = true) (M : Mesh) (hM : MeshOk M) (f o : CF)
     (hf : Good M f) (ho : Good M o) (d : Nat) (hd : bdim f.nvdim o.nvdim = some d) :
     ∃ g, applyBin env b (.fld f) (.fld o) = .ok (.fld g) ∧ Good M g ∧ g.nvdim = d ∧
-      g.vdims = (metaSrc f o).vdims ∧ g.vmap = (metaSrc f o).vmap ∧ g.unit = none := by
-  obtain ⟨g, h, hg, h1, h2, h3, h4, _⟩ :=
+      g.vdims = (metaSrc f o).vdims ∧ g.vmap = (metaSrc f o).vmap ∧ g.unit = none ∧
+      g.kind = (f.kind.join o.kind).ctor := by
+  obtain ⟨g, h, hg, h1, h2, h3, h4, h5⟩ :=
     applyOperator_fld_accepts (binFn b) (isPow b) M hM f o hf ho d hd
       (by cases b <;> simp [isArith] at hb <;> exact negIntPow_false _ _ _)
-  refine ⟨g, ?_, hg, h1, h2, h3, h4⟩
+  refine ⟨g, ?_, hg, h1, h2, h3, h4, h5⟩
   cases b <;> simp [isArith] at hb <;> simp only [applyBin, forwardOp, h]
 
 /-- elementwise operator or `**`, field on the left, number / vector / array on the right -/
@@ -126,13 +120,13 @@ theorem applyBin_arith_fr (env : Env) (b : BinOp) (od : Opd)
     (hb : isArith b = true ∨ (b = .pow ∧ PowOk od)) (M : Mesh) (f : CF)
     (hf : Good M f) (hfit : RawFits f.mesh.n f.nvdim od) :
     ∃ g, applyBin env b (.fld f) (.raw od) = .ok (.fld g) ∧ Good M g ∧ g.nvdim = f.nvdim ∧
-      g.vdims = f.vdims ∧ g.vmap = f.vmap ∧ g.unit = none := by
+      g.vdims = f.vdims ∧ g.vmap = f.vmap ∧ g.unit = none ∧ g.kind = (f.kind.join (rawKind od)).ctor := by
   have hpw : negIntPow (isPow b) f.kind (rawKind od) (rawArr od) = false := by
     rcases hb with hb | ⟨_, hb⟩
     · cases b <;> simp [isArith] at hb <;> exact negIntPow_false _ _ _
     · exact negIntPow_powOk _ _ _ hb
-  obtain ⟨g, h, hg, h1, h2, h3, h4, _⟩ := applyOperator_raw_accepts (binFn b) (isPow b) M f hf od hfit hpw
-  refine ⟨g, ?_, hg, h1, h2, h3, h4⟩
+  obtain ⟨g, h, hg, h1, h2, h3, h4, h5⟩ := applyOperator_raw_accepts (binFn b) (isPow b) M f hf od hfit hpw
+  refine ⟨g, ?_, hg, h1, h2, h3, h4, h5⟩
   rcases hb with hb | ⟨hb, _⟩
   · cases b <;> simp [isArith] at hb <;> simp only [applyBin, forwardOp, h]
   · subst hb; simp only [applyBin, forwardOp, h]
@@ -142,46 +136,47 @@ methods for plain Python operands, `__array_ufunc__` for NumPy ones -/
 theorem applyBin_arith_rf (env : Env) (b : BinOp) (hb : isArith b = true) (M : Mesh) (hM : MeshOk M) (f : CF)
     (hf : Good M f) (od : Opd) (hfit : RawFits f.mesh.n f.nvdim od) :
     ∃ g, applyBin env b (.raw od) (.fld f) = .ok (.fld g) ∧ Good M g ∧ g.nvdim = f.nvdim ∧
-      g.vdims = f.vdims ∧ g.vmap = f.vmap ∧ g.unit = none := by
+      g.vdims = f.vdims ∧ g.vmap = f.vmap ∧ g.unit = none ∧ g.kind = (f.kind.join (rawKind od)).ctor := by
   by_cases hnp : isNp od = true
   · have hu : UfuncOpd od := by
       cases od with
       | num z k np => trivial
       | arr a k np => exact hnp
-    obtain ⟨g, h, hg, h1, h2, h3, h4, _⟩ := ufunc2_rf_accepts (binFn b) (isPow b) M hM f hf od hfit hu
+    obtain ⟨g, h, hg, h1, h2, h3, h4, h5⟩ := ufunc2_rf_accepts (binFn b) (isPow b) M hM f hf od hfit hu
       (by cases b <;> simp [isArith] at hb <;> exact negIntPow_false _ _ _)
-    refine ⟨g, ?_, hg, h1, h2, h3, h4⟩
+    refine ⟨g, ?_, hg, h1, h2, h3, h4, by rw [h5, Kind.join_comm]⟩
     cases b <;> simp [isArith] at hb <;> simp only [applyBin, hnp, if_true, h]
   · have hnp' : isNp od = false := by simpa using hnp
     cases b <;> simp [isArith] at hb
     case add =>
-      obtain ⟨g, h, hg, h1, h2, h3, h4, _⟩ :=
+      obtain ⟨g, h, hg, h1, h2, h3, h4, h5⟩ :=
         applyOperator_raw_accepts GQ.add false M f hf od hfit (negIntPow_false _ _ _)
-      exact ⟨g, by simp only [applyBin, hnp', Bool.false_eq_true, if_false, reflectedOp, h], hg, h1, h2, h3, h4⟩
+      exact ⟨g, by simp only [applyBin, hnp', Bool.false_eq_true, if_false, reflectedOp, h], hg, h1, h2, h3, h4, h5⟩
     case mul =>
-      obtain ⟨g, h, hg, h1, h2, h3, h4, _⟩ :=
+      obtain ⟨g, h, hg, h1, h2, h3, h4, h5⟩ :=
         applyOperator_raw_accepts GQ.mul false M f hf od hfit (negIntPow_false _ _ _)
-      exact ⟨g, by simp only [applyBin, hnp', Bool.false_eq_true, if_false, reflectedOp, h], hg, h1, h2, h3, h4⟩
+      exact ⟨g, by simp only [applyBin, hnp', Bool.false_eq_true, if_false, reflectedOp, h], hg, h1, h2, h3, h4, h5⟩
     case div =>
-      obtain ⟨g, h, hg, h1, h2, h3, h4, _⟩ :=
+      obtain ⟨g, h, hg, h1, h2, h3, h4, h5⟩ :=
         applyOperator_raw_accepts (fun x y => GQ.div y x) false M f hf od hfit (negIntPow_false _ _ _)
-      exact ⟨g, by simp only [applyBin, hnp', Bool.false_eq_true, if_false, reflectedOp, h], hg, h1, h2, h3, h4⟩
+      exact ⟨g, by simp only [applyBin, hnp', Bool.false_eq_true, if_false, reflectedOp, h], hg, h1, h2, h3, h4, h5⟩
     case sub =>
-      obtain ⟨g0, h0, hg0, hn0, hvd0, hvm0, _, _⟩ := mapField_accepts GQ.neg id false M f hf
+      obtain ⟨g0, h0, hg0, hn0, hvd0, hvm0, _, hk0⟩ := mapField_accepts GQ.neg id false M f hf
       have hfit0 : RawFits g0.mesh.n g0.nvdim od := rawFits_of_meta f g0 od hfit (by rw [hg0.2.2, hf.2.2]) hn0
-      obtain ⟨g, h, hg, h1, h2, h3, h4, _⟩ :=
+      obtain ⟨g, h, hg, h1, h2, h3, h4, h5⟩ :=
         applyOperator_raw_accepts GQ.add false M g0 hg0 od hfit0 (negIntPow_false _ _ _)
-      refine ⟨g, ?_, hg, by rw [h1, hn0], by rw [h2, hvd0], by rw [h3, hvm0], h4⟩
+      refine ⟨g, ?_, hg, by rw [h1, hn0], by rw [h2, hvd0], by rw [h3, hvm0], h4,
+        by rw [h5, hk0]; exact Kind.join_ctor_left _ _⟩
       simp only [applyBin, hnp', Bool.false_eq_true, if_false, reflectedOp, h0, h]
 
 /-- binary ufunc call on two fields -/
 theorem applyBin_ufunc_ff (env : Env) (b : BinOp) (hb : isUArith b = true) (M : Mesh) (hM : MeshOk M) (f o : CF)
     (hf : Good M f) (ho : Good M o) (hd : bdim f.nvdim o.nvdim = some f.nvdim) :
     ∃ g, applyBin env b (.fld f) (.fld o) = .ok (.fld g) ∧ Good M g ∧ g.nvdim = f.nvdim ∧
-      g.vdims = f.vdims ∧ g.vmap = f.vmap ∧ g.unit = none := by
-  obtain ⟨g, h, hg, h1, h2, h3, h4, _⟩ := ufunc2_ff_accepts (binFn b) (isPow b) M hM f o hf ho hd
+      g.vdims = f.vdims ∧ g.vmap = f.vmap ∧ g.unit = none ∧ g.kind = (f.kind.join o.kind).ctor := by
+  obtain ⟨g, h, hg, h1, h2, h3, h4, h5⟩ := ufunc2_ff_accepts (binFn b) (isPow b) M hM f o hf ho hd
     (by cases b <;> simp [isUArith] at hb <;> exact negIntPow_false _ _ _)
-  refine ⟨g, ?_, hg, h1, h2, h3, h4⟩
+  refine ⟨g, ?_, hg, h1, h2, h3, h4, h5⟩
   cases b <;> simp [isUArith] at hb <;> simp only [applyBin, h]
 
 /-- binary ufunc call, field first -/
@@ -189,13 +184,13 @@ theorem applyBin_ufunc_fr (env : Env) (b : BinOp) (od : Opd)
     (hb : isUArith b = true ∨ (b = .upow ∧ PowOk od)) (M : Mesh) (hM : MeshOk M) (f : CF)
     (hf : Good M f) (hfit : RawFits f.mesh.n f.nvdim od) (hu : UfuncOpd od) :
     ∃ g, applyBin env b (.fld f) (.raw od) = .ok (.fld g) ∧ Good M g ∧ g.nvdim = f.nvdim ∧
-      g.vdims = f.vdims ∧ g.vmap = f.vmap ∧ g.unit = none := by
+      g.vdims = f.vdims ∧ g.vmap = f.vmap ∧ g.unit = none ∧ g.kind = (f.kind.join (rawKind od)).ctor := by
   have hpw : negIntPow (isPow b) f.kind (rawKind od) (rawArr od) = false := by
     rcases hb with hb | ⟨_, hb⟩
     · cases b <;> simp [isUArith] at hb <;> exact negIntPow_false _ _ _
     · exact negIntPow_powOk _ _ _ hb
-  obtain ⟨g, h, hg, h1, h2, h3, h4, _⟩ := ufunc2_fr_accepts (binFn b) (isPow b) M hM f hf od hfit hu hpw
-  refine ⟨g, ?_, hg, h1, h2, h3, h4⟩
+  obtain ⟨g, h, hg, h1, h2, h3, h4, h5⟩ := ufunc2_fr_accepts (binFn b) (isPow b) M hM f hf od hfit hu hpw
+  refine ⟨g, ?_, hg, h1, h2, h3, h4, h5⟩
   rcases hb with hb | ⟨hb, _⟩
   · cases b <;> simp [isUArith] at hb <;> simp only [applyBin, h]
   · subst hb; simp only [applyBin, h]
@@ -204,28 +199,30 @@ theorem applyBin_ufunc_fr (env : Env) (b : BinOp) (od : Opd)
 theorem applyBin_ufunc_rf (env : Env) (b : BinOp) (hb : isUArith b = true) (M : Mesh) (hM : MeshOk M) (f : CF)
     (hf : Good M f) (od : Opd) (hfit : RawFits f.mesh.n f.nvdim od) (hu : UfuncOpd od) :
     ∃ g, applyBin env b (.raw od) (.fld f) = .ok (.fld g) ∧ Good M g ∧ g.nvdim = f.nvdim ∧
-      g.vdims = f.vdims ∧ g.vmap = f.vmap ∧ g.unit = none := by
-  obtain ⟨g, h, hg, h1, h2, h3, h4, _⟩ := ufunc2_rf_accepts (binFn b) (isPow b) M hM f hf od hfit hu
+      g.vdims = f.vdims ∧ g.vmap = f.vmap ∧ g.unit = none ∧ g.kind = (f.kind.join (rawKind od)).ctor := by
+  obtain ⟨g, h, hg, h1, h2, h3, h4, h5⟩ := ufunc2_rf_accepts (binFn b) (isPow b) M hM f hf od hfit hu
     (by cases b <;> simp [isUArith] at hb <;> exact negIntPow_false _ _ _)
-  refine ⟨g, ?_, hg, h1, h2, h3, h4⟩
+  refine ⟨g, ?_, hg, h1, h2, h3, h4, by rw [h5, Kind.join_comm]⟩
   cases b <;> simp [isUArith] at hb <;> simp only [applyBin, h]
 
 /-- `@` with a plain list / tuple on the left is `self.dot(other)` -/
 theorem applyBin_dot_rf (env : Env) (M : Mesh) (f : CF) (hf : Good M f) (a : NDA GQ) (k : Kind)
     (hfit : RawFits f.mesh.n f.nvdim (.arr a k false)) :
     ∃ g, applyBin env .dot (.raw (.arr a k false)) (.fld f) = .ok (.fld g) ∧ Good M g ∧ g.nvdim = 1 ∧
-      g.vdims = none ∧ g.vmap = [] ∧ g.unit = none := by
-  obtain ⟨g, h, hg, h1, h2, h3, h4, _⟩ := dotOp_raw_accepts M f hf a k false hfit
-  exact ⟨g, by simp only [applyBin, isNp, Bool.false_eq_true, if_false, reflectedOp, h], hg, h1, h2, h3, h4⟩
+      g.vdims = none ∧ g.vmap = [] ∧ g.unit = none ∧ g.kind = (f.kind.join k).ctor := by
+  obtain ⟨g, h, hg, h1, h2, h3, h4, h5⟩ := dotOp_raw_accepts M f hf a k false hfit
+  exact ⟨g, by simp only [applyBin, isNp, Bool.false_eq_true, if_false, reflectedOp, h], hg, h1, h2, h3, h4, h5⟩
 
 /-- `&` with a plain list / tuple on the left is `-self.cross(other)` -/
 theorem applyBin_cross_rf (env : Env) (M : Mesh) (hM : MeshOk M) (f : CF) (hf : Good M f) (h3 : f.nvdim = 3)
     (a : NDA GQ) (k : Kind) (hfit : RawFits f.mesh.n f.nvdim (.arr a k false)) :
     ∃ g, applyBin env .cross (.raw (.arr a k false)) (.fld f) = .ok (.fld g) ∧ Good M g ∧ g.nvdim = 3 ∧
-      g.vdims = f.vdims ∧ vmapSet 3 M.region.ndim f.vdims M.region.dims none = .ok g.vmap ∧ g.unit = none := by
-  obtain ⟨g0, h0, hg0, hn0, hvd0, hvm0, _, _⟩ := crossOp_raw_accepts M hM f hf h3 a k false hfit
-  obtain ⟨g, h, hg, h1, h2, h3', h4, _⟩ := mapField_accepts GQ.neg id false M g0 hg0
-  refine ⟨g, ?_, hg, by rw [h1, hn0], by rw [h2, hvd0], by rw [h3']; exact hvm0, h4⟩
+      g.vdims = f.vdims ∧ vmapSet 3 M.region.ndim f.vdims M.region.dims none = .ok g.vmap ∧ g.unit = none ∧
+      g.kind = (f.kind.join k).ctor := by
+  obtain ⟨g0, h0, hg0, hn0, hvd0, hvm0, _, hk0⟩ := crossOp_raw_accepts M hM f hf h3 a k false hfit
+  obtain ⟨g, h, hg, h1, h2, h3', h4, h5⟩ := mapField_accepts GQ.neg id false M g0 hg0
+  refine ⟨g, ?_, hg, by rw [h1, hn0], by rw [h2, hvd0], by rw [h3']; exact hvm0, h4,
+    by rw [h5, hk0]; exact Kind.ctor_ctor _⟩
   simp only [applyBin, isNp, Bool.false_eq_true, if_false, reflectedOp, h0, h]
 
 /-- `<<` between two fields -/
@@ -233,7 +230,8 @@ theorem applyBin_shl_ff (env : Env) (M : Mesh) (hM : MeshOk M) (f o : CF) (hf : 
     ∃ g, applyBin env .shl (.fld f) (.fld o) = .ok (.fld g) ∧ Good M g ∧ g.nvdim = f.nvdim + o.nvdim ∧
       g.unit = none ∧ g.vdims = shlLabels f.vdims o.vdims (f.nvdim + o.nvdim) ∧
       (if (dictUpdate f.vmap o.vmap).length = f.nvdim + o.nvdim then g.vmap = dictUpdate f.vmap o.vmap
-       else vmapSet (f.nvdim + o.nvdim) M.region.ndim g.vdims M.region.dims none = .ok g.vmap) := by
+       else vmapSet (f.nvdim + o.nvdim) M.region.ndim g.vdims M.region.dims none = .ok g.vmap) ∧
+      g.kind = (f.kind.join o.kind).ctor := by
   obtain ⟨g, h, hrest⟩ := shlFF_accepts M hM f o hf ho
   exact ⟨g, by simp only [applyBin, forwardOp, shlOp, h], hrest⟩
 
@@ -241,65 +239,66 @@ theorem applyBin_shl_ff (env : Env) (M : Mesh) (hM : MeshOk M) (f o : CF) (hf : 
 theorem applyBin_angle_ff (env : Env) (M : Mesh) (hM : MeshOk M) (f o : CF) (hf : Good M f) (ho : Good M o)
     (hn : f.nvdim = o.nvdim) :
     ∃ g, applyBin env .angle (.fld f) (.fld o) = .ok (.fld g) ∧ Good M g ∧ g.nvdim = 1 ∧ g.vdims = none ∧
-      g.vmap = [] ∧ g.unit = some "rad" := by
+      g.vmap = [] ∧ g.unit = some "rad" ∧ g.kind = .float := by
   obtain ⟨g, h, hrest⟩ := angleOp_fld_accepts env.sq env.acos M hM f o hf ho hn
   exact ⟨g, by simp only [applyBin, forwardOp, h], hrest⟩
 
 /-! ## the typing judgment -/
 
 /-- **static typing of expression trees** over the fields of `env` (all on the mesh `M`):
-`HasTy env M e t` predicts component count, labels, mapping and unit of `e`'s value.
+`HasTy env M e t` predicts component count, labels, mapping, unit and dtype kind of `e`'s value.
 Covers leaves, all unary operations, `+ - * /` (two fields with equal counts or one scalar
 field; number / constant vector of matching length / per-cell array on either side, plain
 or NumPy), `**` with a number exponent, `dot` and `cross` (two fields, or a vector / array
 on either side), `<<` and `angle` between fields, and the binary ufunc calls. -/
 inductive HasTy (env : Env) (M : Mesh) : Expr → Ty → Prop
   | leaf (k : Nat) (f : CF) : env.fields[k]? = some f → HasTy env M (.leaf k) (tyOf f)
-  | un (u : UnOp) (e : Expr) (t : Ty) : HasTy env M e t →
-      HasTy env M (.un u e) (if unKeepsUnit u then t else t.noUnit)
+  | un (u : UnOp) (e : Expr) (t : Ty) : HasTy env M e t → HasTy env M (.un u e) (unTy u t)
   | arithFF (b : BinOp) (l r : Expr) (tl tr : Ty) (d : Nat) : isArith b = true →
       HasTy env M l tl → HasTy env M r tr → bdim tl.nv tr.nv = some d →
-      HasTy env M (.bin b l r) (if tl.nv = 1 ∧ 1 < tr.nv then tr.noUnit else tl.noUnit)
+      HasTy env M (.bin b l r)
+        ((if tl.nv = 1 ∧ 1 < tr.nv then tr else tl).res (tl.kind.join tr.kind).ctor)
   | arithFR (b : BinOp) (l : Expr) (od : Opd) (t : Ty) : (isArith b = true ∨ (b = .pow ∧ PowOk od)) →
       HasTy env M l t → RawFits M.n t.nv od →
-      HasTy env M (.bin b l (.opd od)) t.noUnit
+      HasTy env M (.bin b l (.opd od)) (t.res (t.kind.join (rawKind od)).ctor)
   | arithRF (b : BinOp) (od : Opd) (r : Expr) (t : Ty) : isArith b = true →
       HasTy env M r t → RawFits M.n t.nv od →
-      HasTy env M (.bin b (.opd od) r) t.noUnit
+      HasTy env M (.bin b (.opd od) r) (t.res (t.kind.join (rawKind od)).ctor)
   | dotFF (l r : Expr) (tl tr : Ty) : HasTy env M l tl → HasTy env M r tr → tl.nv = tr.nv →
-      HasTy env M (.bin .dot l r) ⟨1, none, [], none⟩
+      HasTy env M (.bin .dot l r) ⟨1, none, [], none, (tl.kind.join tr.kind).ctor⟩
   | dotFR (l : Expr) (a : NDA GQ) (k : Kind) (np : Bool) (t : Ty) : HasTy env M l t →
       RawFits M.n t.nv (.arr a k np) →
-      HasTy env M (.bin .dot l (.opd (.arr a k np))) ⟨1, none, [], none⟩
+      HasTy env M (.bin .dot l (.opd (.arr a k np))) ⟨1, none, [], none, (t.kind.join k).ctor⟩
   | dotRF (a : NDA GQ) (k : Kind) (r : Expr) (t : Ty) : HasTy env M r t →
       RawFits M.n t.nv (.arr a k false) →
-      HasTy env M (.bin .dot (.opd (.arr a k false)) r) ⟨1, none, [], none⟩
+      HasTy env M (.bin .dot (.opd (.arr a k false)) r) ⟨1, none, [], none, (t.kind.join k).ctor⟩
   | crossFF (l r : Expr) (tl tr : Ty) (m : VMap) : HasTy env M l tl → HasTy env M r tr → tl.nv = 3 → tr.nv = 3 →
       vmapSet 3 M.region.ndim tl.vdims M.region.dims none = .ok m →
-      HasTy env M (.bin .cross l r) ⟨3, tl.vdims, m, none⟩
+      HasTy env M (.bin .cross l r) ⟨3, tl.vdims, m, none, (tl.kind.join tr.kind).ctor⟩
   | crossFR (l : Expr) (a : NDA GQ) (k : Kind) (np : Bool) (t : Ty) (m : VMap) : HasTy env M l t → t.nv = 3 →
       RawFits M.n t.nv (.arr a k np) →
       vmapSet 3 M.region.ndim t.vdims M.region.dims none = .ok m →
-      HasTy env M (.bin .cross l (.opd (.arr a k np))) ⟨3, t.vdims, m, none⟩
+      HasTy env M (.bin .cross l (.opd (.arr a k np))) ⟨3, t.vdims, m, none, (t.kind.join k).ctor⟩
   | crossRF (a : NDA GQ) (k : Kind) (r : Expr) (t : Ty) (m : VMap) : HasTy env M r t → t.nv = 3 →
       RawFits M.n t.nv (.arr a k false) →
       vmapSet 3 M.region.ndim t.vdims M.region.dims none = .ok m →
-      HasTy env M (.bin .cross (.opd (.arr a k false)) r) ⟨3, t.vdims, m, none⟩
+      HasTy env M (.bin .cross (.opd (.arr a k false)) r) ⟨3, t.vdims, m, none, (t.kind.join k).ctor⟩
   | shlFF (l r : Expr) (tl tr : Ty) (m : VMap) : HasTy env M l tl → HasTy env M r tr →
       (if (dictUpdate tl.vmap tr.vmap).length = tl.nv + tr.nv then m = dictUpdate tl.vmap tr.vmap
        else vmapSet (tl.nv + tr.nv) M.region.ndim (shlLabels tl.vdims tr.vdims (tl.nv + tr.nv)) M.region.dims none
               = .ok m) →
-      HasTy env M (.bin .shl l r) ⟨tl.nv + tr.nv, shlLabels tl.vdims tr.vdims (tl.nv + tr.nv), m, none⟩
+      HasTy env M (.bin .shl l r)
+        ⟨tl.nv + tr.nv, shlLabels tl.vdims tr.vdims (tl.nv + tr.nv), m, none, (tl.kind.join tr.kind).ctor⟩
   | angleFF (l r : Expr) (tl tr : Ty) : HasTy env M l tl → HasTy env M r tr → tl.nv = tr.nv →
-      HasTy env M (.bin .angle l r) ⟨1, none, [], some "rad"⟩
+      HasTy env M (.bin .angle l r) ⟨1, none, [], some "rad", .float⟩
   | ufuncFF (b : BinOp) (l r : Expr) (tl tr : Ty) : isUArith b = true →
       HasTy env M l tl → HasTy env M r tr → bdim tl.nv tr.nv = some tl.nv →
-      HasTy env M (.bin b l r) tl.noUnit
+      HasTy env M (.bin b l r) (tl.res (tl.kind.join tr.kind).ctor)
   | ufuncFR (b : BinOp) (l : Expr) (od : Opd) (t : Ty) : (isUArith b = true ∨ (b = .upow ∧ PowOk od)) →
       HasTy env M l t → RawFits M.n t.nv od → UfuncOpd od →
-      HasTy env M (.bin b l (.opd od)) t.noUnit
+      HasTy env M (.bin b l (.opd od)) (t.res (t.kind.join (rawKind od)).ctor)
   | ufuncRF (b : BinOp) (od : Opd) (r : Expr) (t : Ty) : isUArith b = true →
       HasTy env M r t → RawFits M.n t.nv od → UfuncOpd od →
-      HasTy env M (.bin b (.opd od) r) t.noUnit
+      HasTy env M (.bin b (.opd od) r) (t.res (t.kind.join (rawKind od)).ctor)
 
 end DFV.C03
